@@ -75,6 +75,13 @@ static Built build(const ModelSpec &s) {
     b.mx = to_lib(s.X); matrix *my = to_lib(s.Y); NewPLSModel(&b.pls); PLS(b.mx, my, (size_t)s.ncomp, s.scaling, s.scaling < 0 ? -1 : 0, b.pls, NULL); DelMatrix(&my);
     // some validation fields filled, the rest left empty (fresh model)
     ResizeMatrix(b.pls->q2y, (size_t)s.ncomp, (size_t)s.ny); for (int i = 0; i < s.ncomp; i++) for (int j = 0; j < s.ny; j++) b.pls->q2y->data[i][j] = 0.1 * (i + 1) - 0.01 * j;
+    // validation statistics and curves as a validated (PLS-DA style) model carries them; which ones, and their shapes, depend on the model
+    if ((s.n + s.p) % 2 == 0) { ResizeMatrix(b.pls->sdep, (size_t)s.ncomp, (size_t)s.ny); MatrixSet(b.pls->sdep, 0.25 * s.n); ResizeMatrix(b.pls->bias, (size_t)s.ncomp, (size_t)s.ny); MatrixSet(b.pls->bias, 0.5); }
+    if (s.n % 3 != 0) {
+      tensor *ts[4] = {b.pls->roc_recalculated, b.pls->roc_validation, b.pls->precision_recall_recalculated, b.pls->precision_recall_validation};
+      for (int q = 0; q < 4; q++) for (int k = 0; k < s.ncomp + q % 2; k++) { AddTensorMatrix(ts[q], (size_t)(s.n - k), (size_t)(2 * s.ny)); MatrixSet(ts[q]->m[k], 0.125 * (q + 1) + k + 0.001 * s.p); }
+      ResizeMatrix(b.pls->roc_auc_validation, (size_t)s.ncomp, (size_t)s.ny); MatrixSet(b.pls->roc_auc_validation, 0.75);
+    }
     b.flat = flat_pls(b.pls);
   } else {
     NewTensor(&b.tx, 2); for (int k = 0; k < 2; k++) { NewTensorMatrix(b.tx, (size_t)k, (size_t)s.n, (size_t)s.p); for (int i = 0; i < s.n; i++) for (int j = 0; j < s.p; j++) b.tx->m[k]->data[i][j] = (double)s.X(i, k * s.p + j); }
